@@ -1,3 +1,4 @@
+import Gengo.Gen.Consts
 /-!
 Model of pkg/types/comments.go (`ExtractCommentTags`, `splitKV`) over code points, and of
 `IsGeneratorEnabled` / `merge` in pkg/gengo.  A Go `map[string][]string` is an association
@@ -48,11 +49,11 @@ def isEnabledLoop (prefix_ : Str) : List (Str × List Str) → Bool → Bool
     else isEnabledLoop prefix_ rest en
 
 def isEnabled (gen : Str) (tags : List (Str × List Str)) : Bool :=
-  isEnabledLoop ("gengo:".toList ++ gen) tags false
+  isEnabledLoop (Gengo.Gen.tagPrefix ++ gen) tags false
 
 /-- order-free specification of the rule in the property statement -/
 def enabledSpec (gen : Str) (tags : List (Str × List Str)) : Bool :=
-  let p := "gengo:".toList ++ gen
+  let p := Gengo.Gen.tagPrefix ++ gen
   match tags.lookup p with
   | some vs => vs.flatten ≠ "false".toList
   | none => tags.any (fun kv => (p ++ [':']).isPrefixOf kv.1)
